@@ -105,9 +105,13 @@ pub fn schedule(max: usize) -> impl Strategy<Value = Vec<u8>> {
 pub fn stream_workload(sh: Shape) -> impl Strategy<Value = Case> {
     // a third of the workloads run with keepalive on one or both sides: Ping/Pong messages interleave with the frames
     let ka = prop_oneof![4 => Just([false, false]), 1 => Just([true, false]), 1 => Just([true, true])];
-    (opts(sh.small_windows), opts(sh.small_windows), cap(), cap(), prop::collection::vec(stream_spec(sh), 1..=sh.max_streams), schedule(sh.max_sched), ka, prop::collection::vec(0u32..250, 0..3)).prop_map(|(o0, o1, c0, c1, streams, schedule, keepalive, ticks)| Case {
+    // a quarter of the workloads run over a write-behind transport on one or both sides: what the endpoint hands to its WebSocket is
+    // only transmitted when it flushes (or when the small output buffer is full)
+    let wb = || prop_oneof![3 => Just(None), 1 => (1u8..4).prop_map(Some)];
+    (opts(sh.small_windows), opts(sh.small_windows), cap(), cap(), prop::collection::vec(stream_spec(sh), 1..=sh.max_streams), schedule(sh.max_sched), ka, (prop::collection::vec(0u32..250, 0..3), wb(), wb())).prop_map(|(o0, o1, c0, c1, streams, schedule, keepalive, (ticks, w0, w1))| Case {
         opts: [o0, o1],
         cap: [c0, c1],
+        write_behind: [w0, w1],
         streams,
         schedule,
         keepalive,
